@@ -1,6 +1,6 @@
-import SqlProofs.DelimR.Level
+import SqlProofs.DelimChild.Reindent.Level
 /-!
-# SqlProofs.DelimR.Driver — the parent-level loop of `_group` never reaches into a protected suffix
+# SqlProofs.DelimChild.Reindent.Driver — the parent-level loop of `_group` never reaches into a protected suffix
 
 `L = F ++ S`.  If no child of `S` is a match, the first child of `S` is not whitespace, and the last non-whitespace
 child of `F` cannot take the first child of `S` as its `next_` (`NoTake`), then every `group_tokens` call of the loop
@@ -8,7 +8,8 @@ stays inside `F`: `Ops false S L result`.  Uses the tail alignment `Al` of `Grou
 `group_operator`, whose `post` re-types `tlist[tidx]`, brings its own invariant `J` that says this is the matched token).
 -/
 namespace Sql
-namespace DC
+namespace DCR
+open DC
 
 /-- one iteration either leaves the list alone or groups after a successful `post` -/
 theorem drvStep_cases {cfg : DrvCfg} {st st' : DrvSt} {idx : Nat} {token : Node}
@@ -422,5 +423,5 @@ theorem drvLoop_ops_gen {cfg : DrvCfg} (hp : PostAl3 cfg) (hcls : plainCls cfg.c
               obtain ⟨rfl, rfl⟩ := hpp
               exact ⟨grp, hat, Or.inl rfl⟩
 
-end DC
+end DCR
 end Sql
